@@ -259,6 +259,18 @@ def run(tier, t0):
         if k not in seen:
             seen.add(k)
             corpus.append((kind, it))
+    # scoring arithmetic under every interpreter: members of every one of the 270 v4 macrovectors (uniform sampling rarely visits
+    # the thin ones; integer vs true division, rounding of x.x5 ties ... differ for few of them) and seeded v2 / v3 classes
+    import random
+    from .. import oracles, spec
+    from . import c09
+    rng = random.Random(runner.mix(runner.SEED, 2020))
+    for key in sorted(oracles.look()):
+        for _ in range(3 if tier == "quick" else 40):
+            corpus.append(("ctor-v4-macrovector", ["ctor", "4", gen.realise4(rng, oracles.random_in_macro(rng, key))]))
+    for ver in ("2", "3"):
+        for _ in range(400 if tier == "quick" else 8000):
+            corpus.append(("ctor-score-class", ["ctor", ver, c09._rand_class(rng, ver)]))
     # witnesses of the listed known finding (non-ASCII answers are decoded differently on 2.7): replayed every run
     for it in WITNESSES:
         corpus.append(("interactive-nonascii", it))
